@@ -664,6 +664,102 @@ fn high_alignment_classes(ctx: &Ctx) {
     }
 }
 
+/// Dirty-tracked memory, and histories on it: the second (and third) access to a location that
+/// an earlier access has already dirtied - or whose page has been cleared again - is carried out
+/// like the first. Length 1/2/4/8 (and 3) x guest address mod 8 x page size {1, 4, 64, 4096} x
+/// eight entry points x three histories (fresh, already dirty, dirtied and cleared).
+fn tracked_histories(ctx: &Ctx) {
+    use std::num::NonZeroUsize;
+    use vm_memory::bitmap::{AtomicBitmap, Bitmap};
+    let mut b = Bufs::new();
+    let gptr = b.guest.as_mut_ptr();
+    let glen = b.guest.len();
+    let guest_range = (gptr as usize, gptr as usize + glen);
+    for page in [1usize, 4, 64, 4096] {
+        let bm = AtomicBitmap::new(glen, NonZeroUsize::new(page).unwrap());
+        // SAFETY: guest outlives vs
+        let vs = unsafe { VolatileSlice::with_bitmap(gptr, glen, bm.slice_at(0), None) };
+        for len in [1usize, 2, 4, 8, 3] {
+            for gm in 0..8usize {
+                for hist in 0..3usize {
+                    for ep in ["write", "write_slice", "write_obj", "read_volatile_from(&[u8])", "copy_from<u8>", "read", "read_obj", "write_volatile_to(&mut [u8])"] {
+                        if ep.ends_with("_obj") && len == 3 {
+                            continue;
+                        }
+                        set_cur(ep, len, gm, 0);
+                        let goff = b.gbase + gm;
+                        let loff = b.lbase;
+                        bm.reset();
+                        let local = &mut b.local;
+                        let mut run = |trace: bool| -> (Dir, Result<(), String>, Vec<Event>) {
+                            let (lo, hi) = (loff, loff + len);
+                            let (dir, (r, ev)): (Dir, (Result<(), String>, Vec<Event>)) = match ep {
+                                "write" => (Dir::ToGuest, traced(|| vs.write(&local[lo..hi], goff).map(|_| ()).map_err(|e| format!("{:?}", e)))),
+                                "write_slice" => (Dir::ToGuest, traced(|| vs.write_slice(&local[lo..hi], goff).map_err(|e| format!("{:?}", e)))),
+                                "write_obj" => (Dir::ToGuest, traced(|| {
+                                    match len {
+                                        1 => vs.write_obj(0x5au8, goff),
+                                        2 => vs.write_obj(0x5a5bu16, goff),
+                                        4 => vs.write_obj(0x5a5b_5c5du32, goff),
+                                        _ => vs.write_obj(0x5a5b_5c5d_5e5f_6061u64, goff),
+                                    }
+                                    .map_err(|e| format!("{:?}", e))
+                                })),
+                                "read_volatile_from(&[u8])" => (Dir::ToGuest, traced(|| {
+                                    let mut src: &[u8] = &local[lo..hi];
+                                    vs.read_volatile_from(goff, &mut src, len).map(|_| ()).map_err(|e| format!("{:?}", e))
+                                })),
+                                "copy_from<u8>" => (Dir::ToGuest, traced(|| {
+                                    vs.subslice(goff, len).unwrap().copy_from(&local[lo..hi]);
+                                    Ok(())
+                                })),
+                                "read" => (Dir::FromGuest, traced(|| vs.read(&mut local[lo..hi], goff).map(|_| ()).map_err(|e| format!("{:?}", e)))),
+                                "read_obj" => (Dir::FromGuest, traced(|| {
+                                    match len {
+                                        1 => vs.read_obj::<u8>(goff).map(|_| ()),
+                                        2 => vs.read_obj::<u16>(goff).map(|_| ()),
+                                        4 => vs.read_obj::<u32>(goff).map(|_| ()),
+                                        _ => vs.read_obj::<u64>(goff).map(|_| ()),
+                                    }
+                                    .map_err(|e| format!("{:?}", e))
+                                })),
+                                _ => (Dir::FromGuest, traced(|| {
+                                    let mut dst: &mut [u8] = &mut local[lo..hi];
+                                    vs.write_volatile_to(goff, &mut dst, len).map(|_| ()).map_err(|e| format!("{:?}", e))
+                                })),
+                            };
+                            let _ = trace;
+                            (dir, r, ev)
+                        };
+                        // the history before the judged access
+                        if hist >= 1 {
+                            let _ = run(false);
+                            // the page (and its neighbours) dirty through another route as well
+                            let _ = vs.write(&[0x77], goff + len);
+                        }
+                        if hist == 2 {
+                            bm.reset_addr_range(goff, len);
+                        }
+                        let (dir, r, events) = run(true);
+                        ctx.case(true);
+                        let g_addr = gptr as usize + goff;
+                        let l_addr = if ep.ends_with("_obj") { 0 } else { b.local.as_ptr() as usize + loff };
+                        let bad = match r {
+                            Err(e) => Some(("unexpected-error".to_string(), e)),
+                            Ok(()) => judge(&events, dir, g_addr, l_addr, len, guest_range).err(),
+                        };
+                        if let Some((k, d)) = bad {
+                            let key = format!("C06/slice/{} (dirty-tracked memory, after a history)/{}", ep, k);
+                            let rp = if ctx.has_failed(&key) { Value::Null } else { json!({"entry_point": ep, "len": len, "guest_addr_mod_8": gm, "page_size": page, "history": (["none", "the same access before, neighbours written", "the same access before, then the range cleared in the bitmap"][hist])}) };
+                            ctx.fail(&key, &format!("len {} guest%8={} page size {} history {}: {}", len, gm, page, hist, d), rp);
+                        }
+                    }
+                }
+            }
+        }
+    }
+}
+
 /// Cursor<&mut [u8]> sinks at every position 0..=9 (the bytes already written through the cursor
 /// decide where the next byte lands, not how it may be moved): transfer length 1..=8 x guest
 /// address mod 8 x destination address mod 8 x position, exact and plain form.
@@ -1134,7 +1230,7 @@ fn schedules(ctx: &Ctx) {
 
 pub fn run(tier: Tier, replay: Option<String>) -> i32 {
     let ctx = crate::new_ctx("C06", tier, "model_checking", &replay);
-    ctx.set_rule("(a) trace enumeration: for every transfer length 0..=8 x guest address mod 8 x local address mod 8 (576 classes) x 18 entry points that funnel into the byte-copy helper (write/read/write_slice/read_slice, copy_to/copy_from::<u8> and VolatileArrayRef<u8> copies with a local buffer of the same length and a longer one, &[u8]/&mut [u8]/Vec<u8>/Cursor adapters, plain and exact stream forms; buffer-level entry points also with the local buffer directly before / after the guest bytes in one allocation; Vec<u8> sinks additionally in every fill state: capacity 0..=24 x bytes already held x length 1..=8 x guest address mod 8; Cursor<&mut [u8]> sinks at every position 0..=9 x length x guest address mod 8 x destination address mod 8) and for whole objects of 1..16 bytes at every guest address of two adjacent regions (incl. objects straddling the boundary) through the guest-memory layer: hook H1 records kind, address and width of every primitive volatile access; required: the guest bytes accessed are exactly the range, each once, every access naturally aligned, exactly ONE access of the full width when the length is 1/2/4/8 and both addresses are aligned to it, the data arrives, and a transfer that moved bytes without a recorded volatile access is a violation; the same rule for 10 entry points x lengths {1,2,4,8,3,16} with the guest bytes, and in turn the local buffer, at a host address with exactly 4..=46 trailing zero bits (mmap MAP_FIXED_NOREPLACE at k << tz), and at every naturally aligned position of a 4 KiB page and across the boundary to the next one; guest memory whose region starts at a guest address off the word grid (six bases): host-aligned objects around every guest and host page boundary through six guest-memory level entry points; atomic store/load for all 10 integer types at every offset: Ok iff aligned, value round-trips. (b) E3: all interleavings, with a scheduling point before every primitive access, of a writer flipping 0 <-> all-ones twice and a reader reading twice (u16, u32, u64, and a 16-byte object whose first chunk is the last aligned u64 of a region): the reader may only see the old or the new value. States = choice-tree nodes, traces = schedules executed on the real code.");
+    ctx.set_rule("(a) trace enumeration: for every transfer length 0..=8 x guest address mod 8 x local address mod 8 (576 classes) x 18 entry points that funnel into the byte-copy helper (write/read/write_slice/read_slice, copy_to/copy_from::<u8> and VolatileArrayRef<u8> copies with a local buffer of the same length and a longer one, &[u8]/&mut [u8]/Vec<u8>/Cursor adapters, plain and exact stream forms; buffer-level entry points also with the local buffer directly before / after the guest bytes in one allocation; Vec<u8> sinks additionally in every fill state: capacity 0..=24 x bytes already held x length 1..=8 x guest address mod 8; Cursor<&mut [u8]> sinks at every position 0..=9 x length x guest address mod 8 x destination address mod 8; dirty-tracked slices with page sizes {1,4,64,4096} x three histories - fresh, location already dirty, dirtied and cleared - x eight entry points) and for whole objects of 1..16 bytes at every guest address of two adjacent regions (incl. objects straddling the boundary) through the guest-memory layer: hook H1 records kind, address and width of every primitive volatile access; required: the guest bytes accessed are exactly the range, each once, every access naturally aligned, exactly ONE access of the full width when the length is 1/2/4/8 and both addresses are aligned to it, the data arrives, and a transfer that moved bytes without a recorded volatile access is a violation; the same rule for 10 entry points x lengths {1,2,4,8,3,16} with the guest bytes, and in turn the local buffer, at a host address with exactly 4..=46 trailing zero bits (mmap MAP_FIXED_NOREPLACE at k << tz), and at every naturally aligned position of a 4 KiB page and across the boundary to the next one; guest memory whose region starts at a guest address off the word grid (six bases): host-aligned objects around every guest and host page boundary through six guest-memory level entry points; atomic store/load for all 10 integer types at every offset: Ok iff aligned, value round-trips. (b) E3: all interleavings, with a scheduling point before every primitive access, of a writer flipping 0 <-> all-ones twice and a reader reading twice (u16, u32, u64, and a 16-byte object whose first chunk is the last aligned u64 of a region): the reader may only see the old or the new value. States = choice-tree nodes, traces = schedules executed on the real code.");
     ctx.assume("one naturally aligned volatile access of <= 8 bytes is a single machine access (LLVM volatile semantics, x86-64/aarch64 single-copy atomicity); SC interleavings of whole primitive accesses");
     if ctx.replay_of.is_some() {
         println!("replay: deterministic enumeration; re-running it");
@@ -1147,6 +1243,7 @@ pub fn run(tier: Tier, replay: Option<String>) -> i32 {
     crate::crash::guarded(&ctx, &describe, || slice_classes(&ctx));
     crate::crash::guarded(&ctx, &describe, || vec_sinks(&ctx));
     crate::crash::guarded(&ctx, &describe, || cursor_sinks(&ctx));
+    crate::crash::guarded(&ctx, &describe, || tracked_histories(&ctx));
     crate::crash::guarded(&ctx, &describe, || adjacent_classes(&ctx));
     crate::crash::guarded(&ctx, &describe, || object_classes(&ctx));
     crate::crash::guarded(&ctx, &describe, || high_alignment_classes(&ctx));
